@@ -55,6 +55,14 @@ ASSUMPTIONS = [
     'two connections in one process share the reactor and the process-wide serial counter and nothing else: each must '
     'agree with the single-connection model run alone on its own events (a message received on B is an event of B '
     'whatever reply_serial it carries), and an event of one must leave everything observable of the other unchanged',
+    'several connect() calls in one process (harness/c09_re.py: reconnects and second connections, mostly with the same '
+    'address string, all on one reactor; real getDBusEndpoints and real Twisted endpoints on a reactor that records '
+    'connectUNIX / connectTCP): every connect() is a connecting history of its own - it must agree with the '
+    'single-connection model run alone on its events and fire as the specification demands of them; that the attempts '
+    'go to the usable entries of the round\'s own address list in listed order is checked in Python directly from the '
+    'property text against the address table ADDR_TEXT (the model has no notion of a second connect()).  An attempt is '
+    'answered through the factory the endpoint handed to the reactor (clientConnectionFailed / buildProtocol), as a '
+    'Twisted connector does',
     'after the last event of a case virtual time is advanced far beyond every timeout: whatever is still armed fires, '
     'and the model lets every armed timer run likewise',
     '"live proxy": the harness keeps a strong reference to every proxy it obtained; what happens to callbacks of '
@@ -617,6 +625,11 @@ def evaluate(ctx, cases, res):
         from harness import c09_two
         c09_two.evaluate(ctx, two, res, im)
         cases = [c for c in cases if not (c and c[0] == 'two')]
+    again = [c for c in cases if c and c[0] == 're']
+    if again:
+        from harness import c09_re
+        c09_re.evaluate(ctx, again, res, im)
+        cases = [c for c in cases if not (c and c[0] == 're')]
     lines = []
     for c in cases:
         kinds = [a[0] for a in c[0]]
@@ -1145,6 +1158,8 @@ def gen_cases(ctx):
     yield from g.registration_orders(ctx.n(4, 5))
     from harness import c09_two
     yield from c09_two.gen_cases(ctx, g)
+    from harness import c09_re
+    yield from c09_re.gen_cases(ctx, g)
     yield from g.cancellations(not ctx.quick)
     yield from g.reentrant(not ctx.quick)
     yield from g.in_flight(not ctx.quick)
@@ -1199,6 +1214,11 @@ def run(ctx, res):
                 '(T) two connections alive in one process (harness/c09_two.py): each ready with 1-2 / 0-2 calls in '
                 'flight, callbacks and a proxy; replies and error replies arriving on one connection with a serial '
                 'pending on the other, expiries, the loss of either, then the genuine replies; '
+                '(N) 2-4 connect() calls in one process on one reactor (harness/c09_re.py), nothing of txdbus wrapped: the '
+                'same list of 1-3 usable entries connected to twice with every pair of reachability subsets, and random '
+                'programs over one or two address lists; each round ends ready-and-lost / ready with work in flight and '
+                'lost / ready and left alive / refused / Hello error / lost during authentication / lost before the '
+                'Hello reply / nothing reachable; '
                 '(K) the caller cancels the Deferred of a call: 1-2 calls with and without deadline, optionally a reply / '
                 'error reply / expiry, the cancellation at every later position (also repeated, and of Deferreds that do '
                 'not exist), the loss at every position after it; (R) acting disconnect callbacks: each of 19 connection-level actions (call with/without '
